@@ -52,6 +52,26 @@ def add_macros(p: Program) -> None:
             0 <= k1 and k1 < k2 and k2 < len(s.employees),
             s.employees[k1] != s.employees[k2]), 'int', 'int')
     )''')
+    # the employee behind connection c is one of the listed employees
+    # (conn_to_employee_dict has no other values; established by the
+    # start-up code, which is outside the verified subset)
+    p.macro('emp_listed', ['s', 'c'], '''(
+     c in s.conn_to_employee_dict
+     and exists(lambda k: 0 <= k and k < len(s.employees)
+                and s.employees[k] == s.conn_to_employee_dict[c], 'int'))''')
+    p.macro('Inv_sched', ['s'], '''(
+     len(s.employees) >= 1 and s.step_size >= 1
+     and forall(lambda k: implies(0 <= k and k < len(s.employees),
+            0 <= s.employees[k].num_idle_workers
+            and s.employees[k].num_idle_workers
+                <= s.employees[k].total_workers), 'int')
+     and s.num_idle_workers
+         == isum([e.num_idle_workers for e in s.employees])
+     and s.total_workers == isum([e.total_workers for e in s.employees])
+     and forall(lambda k, j: implies(0 <= k and k < len(s.employees)
+            and 0 <= j and j < len(s.employees[k].submit_cache),
+            s.employees[k].submit_cache[j][1] > 0), 'int', 'int')
+    )''')
     p.macro('emp_index', ['s', 'w'],
             '(w - s.lower_id_bound) // s.step_size')
     p.macro('is_mine', ['s', 'w'], '''(
